@@ -287,8 +287,44 @@ func checkC15(c *run.Ctx) {
 			}
 		}
 	}
+	// Many fallbacks in one sequence: every cause must still be identifiable in the warning.
+	for _, n := range []int{3, 10, 11, 12, 25, 60} {
+		for _, lastKind := range []string{"inference", "type"} {
+			l := doc.L()
+			for k := 0; k < n; k++ {
+				if lastKind == "inference" {
+					l.Seq = append(l.Seq, doc.M(doc.P("type", doc.S(fmt.Sprintf("mystery%d", k)))))
+				} else {
+					l.Seq = append(l.Seq, doc.M(doc.P(fmt.Sprintf("nokind%d", k), doc.I(int64(k)))))
+				}
+			}
+			// one step of the other failure class at the very end
+			if lastKind == "inference" {
+				l.Seq = append(l.Seq, doc.M(doc.P("no_family_key", doc.B(true))))
+			} else {
+				l.Seq = append(l.Seq, doc.M(doc.P("type", doc.S("late-mystery"))))
+			}
+			text := string(doc.ToJSON(doc.M(doc.P("steps", l))))
+			id := fmt.Sprintf("many/%d-%s", n, lastKind)
+			p, perr := pipeline.Parse(strings.NewReader(text))
+			c.Eval(1)
+			c.Feature("many", n, lastKind)
+			c.Count("many_unknown_sequences", 1)
+			if perr == nil || !warning.Is(perr) || p == nil || len(p.Steps) != n+1 {
+				c.Violation(id, map[string]any{"what": fmt.Sprintf("%d unknown steps: err=%v steps=%d", n+1, perr, len(p.Steps)), "document": clip(text, 2000)})
+				continue
+			}
+			if !errors.Is(perr, pipeline.ErrUnknownStepType) || !errors.Is(perr, pipeline.ErrStepTypeInference) {
+				c.Violation(id, map[string]any{"what": fmt.Sprintf("%d fallbacks of one cause followed by one of the other: the warning no longer identifies both causes (unknown type: %v, failed inference: %v)", n, errors.Is(perr, pipeline.ErrUnknownStepType), errors.Is(perr, pipeline.ErrStepTypeInference)), "document": clip(text, 2000)})
+				continue
+			}
+			if got := warningLeaves(perr); got < n+1 {
+				c.Violation(id, map[string]any{"what": fmt.Sprintf("%d fallbacks but the warning reports only %d causes", n+1, got), "document": clip(text, 2000)})
+			}
+		}
+	}
 	c.Finish("exploration",
-		"every subset of the ten kind-determining keys (each with a well-typed value) x `type` in {absent, the nine documented names, unknown names, empty string, a case variant} x five extra-key variants (none, benign, the empty key, alias-named keys, twelve random extras plus a null-valued empty key), key order shuffled, each as a top-level step and inside a group, as JSON and as YAML: the dynamic type of the parsed step and the sentinel inside the warning are compared with the rule table written out in the harness; then all five scalar words and ~200 non-words in three positions. distinct_nontrivial counts distinct (key subset, type, extras) rows",
+		"every subset of the ten kind-determining keys (each with a well-typed value) x `type` in {absent, the nine documented names, unknown names, empty string, a case variant} x five extra-key variants (none, benign, the empty key, alias-named keys, twelve random extras plus a null-valued empty key), key order shuffled, each as a top-level step and inside a group, as JSON and as YAML: the dynamic type of the parsed step and the sentinel inside the warning are compared with the rule table written out in the harness; then all five scalar words and ~200 non-words in three positions; then sequences of 3-60 fallbacks of one cause followed by one of the other, where the warning must still identify both causes and report at least one cause per fallback. distinct_nontrivial counts distinct (key subset, type, extras) rows",
 		map[string]any{"exhaustive": true, "exhaustive_note": "the key-subset x type x extra-variant table is enumerated completely; scalar non-words are a sample"},
 		[]string{"a non-string `type` is a hard error by design and is not in the table", "warning text is not checked"})
 }
